@@ -655,7 +655,7 @@ def _ecdsa_pool(r, f, focus, max_diff=256):
     c = r.choice(curves)
     if c.bits % 32 == 0:
       iss = A.Issuer(r, c, "I%d" % label)
-      add_group(iss.u2f(r, 2), 1)
+      add_group(iss.u2f(r, 2, negative=r.random() < 0.4), 1)
   if "weak_key" in enabled:
     c = r.choice(curves)
     wk = ec_weak_priv_spec(r, c)
